@@ -24,7 +24,7 @@ CLAIMED = {
             'DESIGN.md section 3, C01'),
     'C02': ('exploration',
             'model-based property testing (Hypothesis): generated multi-generation edit histories (write/close/open in the middle) against a reference model',
-            'As C01, but every program contains 1-3 reopen steps (the image is written, closed and the written bytes opened again) with edits before and after each; the API view of the reopened object must equal the reference model after every reopen and after the final write, so untouched content must be carried over unchanged and removed entries must be gone in every namespace. A third of the reopens open a re-laid-out version of the image (file data moved, gaps, arbitrary extents on empty files, version descriptor, declared size too small) and a third an independently re-mastered one (vf/indep/remaster.py: every sector after the descriptors re-assigned in the manner of mkisofs, system-use areas rebuilt with another entry order and other record/continuation splits, El Torito pointers following the moved data).',
+            'As C01, but every program contains 1-3 reopen steps (the image is written, closed and the written bytes opened again) with edits before and after each; the API view of the reopened object must equal the reference model after every reopen and after the final write, so untouched content must be carried over unchanged and removed entries must be gone in every namespace. A third of the reopens open a re-laid-out version of the image (file data moved, gaps, arbitrary extents on empty files, version descriptor, declared size too small) and a third an independently re-mastered one (vf/indep/remaster.py: every sector after the descriptors re-assigned in the manner of mkisofs, system-use areas rebuilt with another entry order and other record/continuation splits, El Torito pointers following the moved data; optionally the records of a directory in ECMA-119 9.3 order instead of byte order). About half of the reopens use the same PyCdlib object again (close() then open_fp()). In a third of the cases the final image is also cut by 1-2 sectors: if the library still opens it, its own view of it must be the view one generation (and one added file) later.',
             'The vendored foreign images are not available offline (vendor/*.tar.gz are git-LFS pointers); the re-laid-out and re-mastered images stand in for them and emulate only traits of real mastering programs (the ER continuation area has a sector of its own, as mkisofs writes it). Trusts the reference model.',
             'DESIGN.md section 3, C02'),
     'C05': ('exploration',
@@ -50,11 +50,11 @@ CLAIMED = {
     'C16': ('exploration',
             'stateful / model-based property testing (Hypothesis): generated stream-operation programs (and a RuleBasedStateMachine) shadowed by io.BytesIO',
             'Programs of open/read/readinto/readall/seek/tell/close/extract/query ops over 4-8 files (parsed from an image - half of the images without UDF independently re-mastered first -, added but unwritten, shared backing file, one > 4 GiB two-extent file) are interpreted against PyCdlibIO and an io.BytesIO shadow per stream; every return value and position must agree, extraction output must equal the content, and reads may only touch image bytes inside the file being read (read log of the image file).',
-            'Negative resulting seek positions, closed streams and boot-info-table files are excluded by construction (documented or unstated behaviour). Single-threaded interleavings only.',
+            'Closed streams are excluded by construction. One file of a recipe may be an El Torito boot file with a boot info table: readers must get the file with the 56-byte table over bytes 8..64 (computed independently: PVD sector, file extent, length, checksum of the rest), and the extent the table claims is verified against a mastering at the end of the case. Single-threaded interleavings only.',
             'DESIGN.md section 3, C16'),
     'C13': ('exploration',
             'property-based testing (Hypothesis): boundary-straddling candidate identifiers and re-add histories against a reference legality predicate, with an independent scan of the written directory',
-            'Candidate identifiers from a grammar that straddles every boundary of the statement (characters, 8.3, 30/31, 207/208, 222+, dots, semicolons, versions, Joliet 64 units, UDF 254/127, depth 7/8) and 2-6 op histories that re-add existing/removed/other-type/other-namespace names are applied to fresh images. Accepted => legal per vf/legal.py, image writes, reopens and holds the identifier exactly once (independent struct-based lister); refused => exactly PyCdlibInvalidInput from the edit; illegal => refused; duplicates => refused.',
+            'Candidate identifiers from a grammar that straddles every boundary of the statement (characters, 8.3, 30/31, 207/208, 222+, dots, semicolons, versions, Joliet 64 units, UDF 254/127, depth 7/8) and 2-6 op histories that re-add existing/removed/other-type/other-namespace names are applied to fresh images. Accepted => legal per vf/legal.py, image writes, reopens and holds the identifier exactly once (independent struct-based lister); refused => exactly PyCdlibInvalidInput from the edit; illegal => refused; duplicates => refused. Every directory of the written image is walked physically as well - also the relocation directory and what the library put there under identifiers of its own making (template with 2-4 like-named directories at the eighth level): no identifier twice.',
             'vf/legal.py encodes the rules listed in the statement (interpretation points are marked). Over-refusals of legal names are counted, not failed.',
             'DESIGN.md section 3, C13'),
     'C18': ('exploration',
@@ -84,7 +84,7 @@ CLAIMED = {
             'DESIGN.md section 3, C10'),
     'C11': ('exploration',
             'property-based testing (Hypothesis) with an independent El Torito decoder as oracle, compared with the requested boot parameters and file contents',
-            'Images of generated boot histories (noemul/floppy/hdemul, platform ids, up to 32 entries, efi/bootable flags, load size/segment, boot info table, explicit catalog names, catalog hard links, unlinked boot files, rm_eltorito, reopen) are decoded independently: boot record at 17, validation entry checksum, per-entry parameters, section headers, each RBA holding the chosen boot file\'s bytes, the catalog readable through each of its names with identical bytes, and the boot info table (PVD sector, file sector, length, checksum) both as stored and as read back.',
+            'Images of generated boot histories (noemul/floppy/hdemul, platform ids, up to 32 entries, efi/bootable flags, load size/segment, boot info table, explicit catalog names, catalog hard links, unlinked boot files, rm_eltorito, reopen) are decoded independently: boot record at 17, validation entry checksum, per-entry parameters, section headers, each RBA holding the chosen boot file\'s bytes, the catalog readable through each of its names with identical bytes, and the boot info table (PVD sector, file sector, length, checksum) both as stored and as read back. The catalog is also read through its names on the live object right before mastering and compared with the catalog sector of that image. Once El Torito has been removed, the allocation clauses of C04 (no sector without an owner, no tail slack, image length) are applied: everything only El Torito referred to must be gone. rm_eltorito on an isohybrid image is a call that must be refused.',
             'El Torito 1.0 layout as I read it. Section platform ids follow what add_eltorito documents.',
             'DESIGN.md section 3, C11'),
     'C12': ('exploration',
